@@ -8,7 +8,10 @@ sys.path.insert(0, os.path.dirname(os.path.abspath(__file__)))
 LEVEL_NOTE = ("Trusted: the Lean 4.33 kernel; axioms propext / Classical.choice / Quot.sound only (audited per theorem on every run, "
               "no native_decide, no sorry); the hand-written Lean model of the Rust (lean/UnicLocale/Model) — tied to /repo's current "
               "source by the correspondence run of this check (differential, bounded by its generator streams) and, for the tables, by "
-              "the translator that re-reads the compiled statics on every run; the Spec files as the reading of the property; "
+              "the translator that re-reads the compiled statics on every run (the CLDR JSON translator is cross-checked by an independent "
+              "reader written in Lean), and, for the loop-free functions listed in the evidence under source_tie, by the translator srclean "
+              "(Rust source text -> Lean definition, regenerated on every run) with a theorem UL.SrcTie.<f>_eq that the source-derived "
+              "definition equals the model's for all inputs; the Spec files as the reading of the property; "
               "tinystr / std containers / derived traits modelled by contract.")
 
 TEXT = {
@@ -158,7 +161,9 @@ def main():
             "engine": "lean4-model",
             "level_claimed": {"category": "proof", "text": text, "design_ref": "DESIGN.md §4 " + pid},
             "level_note": LEVEL_NOTE,
-            "technique": "machine-checked proof in Lean 4 (" + tech + "), model tied to the code by differential correspondence",
+            "technique": "machine-checked proof in Lean 4 (" + tech + "), model tied to the code by differential correspondence"
+                         + (" and, for the loop-free functions it rests on, by translation of the current source text into Lean with "
+                            "equality theorems (source tie)" if pid in props.SRC_TIE else ""),
         })
     all_ids = [json.loads(l)["id"] for l in open(os.path.join(ROOT, "properties.jsonl"))]
     na = [{"property_id": p, "reason": props.NOT_YET.get(p, "check not built yet in this round (model and statements exist; see DESIGN.md §4)")}
@@ -177,7 +182,7 @@ def main():
         "engines": [{
             "name": "lean4-model", "path": "lean/", "serves_properties": sorted(props.CLAIMED),
             "kind_free_text": "Lean 4 model + specs + theorems (lake project UnicLocale, core Lean only), line-protocol driver (lean_exe), "
-                              "Rust correspondence harness (harness/), translators (gen/)",
+                              "Rust correspondence harness (harness/), translators (gen/ for the tables and the CLDR JSON, srclean/ for Rust source text)",
         }],
         "checks": checks,
         "not_applicable": na,
